@@ -53,6 +53,7 @@ def check(ctx) -> None:
     r18(ctx)
     r19(ctx)
     r110(ctx)
+    r111(ctx)
 
 
 # ----------------------------------------------------------------------
@@ -794,3 +795,71 @@ def r110(ctx, rid: str = 'R1.10') -> None:
             f'(STORE in an EXAMINE session -> NO [READ-ONLY]) leaves them '
             f'on the selection and the next NOOP withholds * n EXPUNGE / '
             f'swallows a flag change')
+
+
+def r111(ctx) -> None:
+    """A count announced outside the snapshot comparison (SELECT/EXAMINE)
+    must be the count of the view that later sequence numbers are resolved
+    against: <the SelectedMailbox of select_mailbox()>.messages.exists.  The
+    MailboxSnapshot is taken by an earlier await; anything that lands between
+    the two awaits makes the two numbers differ, and no later response
+    corrects the client."""
+    R = ctx.rule('R1.11', 'a count announced outside the comparison is the '
+                 'synchronized view\'s', 1)
+    own = {id(f.node) for f in compare_func(ctx)}
+    for f in ctx.proj.all_funcs('pymap/'):
+        if id(f.node) in own:
+            continue
+        for c in calls_in(f.node, 'ExistsResponse'):
+            key = f'{f.qualname}: ExistsResponse argument'
+            if not c.args:
+                R.undecided(f, c, key, 'no argument')
+                continue
+            # role: (snapshot, view) = await ...select_mailbox(...)
+            snap = view = None
+            for st in walk_local(f.node):
+                if isinstance(st, ast.Assign) and \
+                        isinstance(st.targets[0], ast.Tuple) and \
+                        len(st.targets[0].elts) == 2 and \
+                        isinstance(strip_await(st.value), ast.Call) and \
+                        call_name(strip_await(st.value)) == 'select_mailbox':
+                    a, b = st.targets[0].elts
+                    snap, view = txt(a), txt(b)
+            if view is None:
+                R.undecided(f, c, key, 'no (snapshot, view) = '
+                            'select_mailbox(...) in this function')
+                continue
+            verdicts = set()
+            for v in resolve_local(f, c.args[0]):
+                base = None
+                if isinstance(v, ast.Attribute) and v.attr == 'exists':
+                    bases = {txt(b) for b in resolve_local(f, v.value)}
+                    if bases == {f'{view}.messages'}:
+                        verdicts.add('view')
+                        continue
+                    base = bases
+                if isinstance(v, ast.Call) and call_name(v) == 'len' and \
+                        v.args and txt(v.args[0]).startswith(
+                            f'{view}.messages'):
+                    verdicts.add('view')
+                    continue
+                if snap in names_in(v) or (base and any(
+                        b == snap or b.startswith(snap + '.') for b in base)):
+                    verdicts.add('snapshot')
+                else:
+                    verdicts.add('unknown:' + txt(v))
+            if 'snapshot' in verdicts:
+                R.fail(f, c, key,
+                       f'EXISTS is taken from the snapshot `{snap}` and not '
+                       f'from `{view}.messages`: select_mailbox() builds '
+                       f'them by two separate awaits; an APPEND or EXPUNGE '
+                       f'of another session between the two makes the '
+                       f'announced count differ from the view that '
+                       f'interprets every later sequence number, and the '
+                       f'next comparison starts from the view, so nothing '
+                       f'ever corrects the client')
+            elif verdicts == {'view'}:
+                R.ok(f, c, key, f'{view}.messages.exists')
+            else:
+                R.undecided(f, c, key, f'argument resolves to '
+                            f'{sorted(verdicts)}')
